@@ -155,8 +155,9 @@ def lexer_rules(ctx, R, rules=("L1", "L2", "L3", "L4")):
         init = R.Lexer.methods["__init__"]
         src = norm(init.node)
         ok = "(?P<%s>%s)" in src and ".join(" in src and "'|'" in src
-        fors = [n for n in walk_no_nested(init.node) if isinstance(n, ast.For)]
-        ok = ok and any("definitions" in norm(f.iter) and not isinstance(f.iter, ast.Call) for f in fors)
+        iters = [n.iter for n in walk_no_nested(init.node) if isinstance(n, ast.For)] + [
+            g.iter for n in walk_no_nested(init.node) if isinstance(n, (ast.ListComp, ast.GeneratorExp)) for g in n.generators]
+        ok = ok and any("definitions" in norm(it) and not isinstance(it, ast.Call) for it in iters)
         pinit = R.Parser.methods.get("__init__")
         ok2 = pinit is not None and any(isinstance(c, ast.Call) and call_name(c) == "Lexer" and c.args and "lrules" in norm(c.args[0])
                                         for c in walk_no_nested(pinit.node))
